@@ -11,7 +11,9 @@ from vmon.oracle.util import elements_of, clone
 PROPERTY = "C05"
 RULE = ("Planted structures (all cell classes incl. every tilt-sign combination, copies straddling 0-3 faces, all pose "
         "classes, 12 search-pattern classes incl. symmetric, collinear, two-atom and single-atom ones) and replacement "
-        "patterns whose new atoms reach up to 6 A outside the search pattern, so inserted atoms are frequently wrapped. "
+        "patterns whose new atoms reach up to 6 A outside the search pattern, so inserted atoms are frequently wrapped; "
+        "and structures on a whole-number grid whose coordinates are held as integers (copies in the 24 orientations of the cube, "
+        "an atom inserted off the grid, expected places from the construction). "
         "Correspondences are observed, not inferred: the matched tuple and its (unwrapped) positions come from the "
         "hooked search result, the inserted atoms from the hooked Atoms.extend call of that match. Oracle per replaced "
         "match: (search coordinates U replacement-only coordinates) must map onto (matched positions U inserted "
@@ -42,7 +44,85 @@ def cases(tier, seed):
         if out[-1]["pattern"] == "close_pair":
             # two like atoms 0.12-0.19 A apart: at the larger tolerances one structure atom fits both places of a candidate
             out[-1]["atol"] = [0.2, 0.2, 0.5][j % 3]
+    # a structure on a whole-number grid whose coordinates are held as integers (built by a script, an idealised lattice model)
+    for j in range(12 if tier == "quick" else 600):
+        out.append({"kind": "integer_grid", "s": int(rng.integers(1 << 30))})
     return out
+
+
+CUBE_ROTATIONS = None
+
+
+def _cube_rotations():
+    global CUBE_ROTATIONS
+    if CUBE_ROTATIONS is None:
+        import itertools
+        rots = []
+        for perm in itertools.permutations(range(3)):
+            for signs in itertools.product([1, -1], repeat=3):
+                M = np.zeros((3, 3))
+                for r in range(3):
+                    M[r, perm[r]] = signs[r]
+                if np.linalg.det(M) > 0:
+                    rots.append(M)
+        CUBE_ROTATIONS = rots
+    return CUBE_ROTATIONS
+
+
+def integer_grid_case(case, ctx):
+    """copies of a three-atom pattern at whole-number coordinates in the 24 orientations of the cube, the positions handed over as an
+    integer array; the replacement adds one atom at a place that is no grid point. Expected places come from the construction."""
+    import mofun
+    from mofun import Atoms
+    rng = np.random.default_rng(case["s"])
+    st = ctx.stats
+    L = int(rng.integers(14, 22))
+    ppos = np.array([[0, 0, 0], [int(rng.integers(1, 3)), 0, 0], [0, int(rng.integers(2, 4)), 0]], float)
+    new_at = np.array([0.5, 0.25 + 0.5 * int(rng.integers(2)), 0.75])
+    rots = _cube_rotations()
+    els, pos, copies = [], [], []
+    for _ in range(60):
+        if len(copies) == int(rng.integers(2, 6)):
+            break
+        R = rots[int(rng.integers(len(rots)))]
+        c = rng.integers(2, L - 2, 3).astype(float)
+        cand = c + ppos.dot(R.T)
+        if pos and min(np.abs(((np.array(pos)[:, None, :] - cand[None, :, :]) + L / 2) % L - L / 2).sum(-1).min(), 99) < 4:
+            continue
+        copies.append((c, R))
+        els += ["C", "O", "N"]
+        pos += [list(x) for x in cand]
+    if not copies:
+        return
+    ip = np.array(pos) % L
+    ip = np.array(np.round(ip), dtype=[np.int64, np.int32][case["s"] % 2])
+    S = Atoms(elements=els, positions=np.array(ip, float), cell=np.diag([float(L)] * 3), charges=1000.0 + np.arange(len(els)) / 64.0)
+    S.positions = ip          # whole numbers, held as integers
+    P = Atoms(elements=["C", "O", "N"], positions=ppos.copy())
+    Rp = Atoms(elements=["C", "O", "N", "F"], positions=np.vstack([ppos, new_at[None, :]]), charges=[-1.0, -2.0, -3.0, -4.0])
+    w = {"kind": "integer_grid", "L": L, "copies": [[c.tolist(), R.tolist()] for c, R in copies], "pattern": ppos.tolist(), "new_atom": new_at.tolist()}
+    try:
+        out = mofun.replace_pattern_in_structure(S, P, Rp, atol=0.05)
+    except Exception as e:
+        if type(e).__name__ == "PostBroken":
+            raise
+        ctx.fail("replacement in a structure whose whole-number coordinates are held as integers raised %s: %s" % (type(e).__name__, str(e)[:160]), witness=w)
+        return
+    st.count("replacements_in_structures_whose_coordinates_are_held_as_integers")
+    got = np.asarray(out.positions, float)[[i for i, e in enumerate(out.elements) if e == "F"]]
+    want = np.array([c + R.dot(new_at) for c, R in copies]) % L
+    if len(got) != len(want):
+        ctx.fail("%d atoms inserted for %d copies on the integer grid" % (len(got), len(want)), witness=w)
+        return
+    for x in want:
+        d = np.abs((got - x + L / 2) % L - L / 2).max(axis=1).min() if len(got) else 9.0
+        if d > 1e-6:
+            ctx.fail("no inserted atom at %s (modulo the lattice), where the replacement pattern puts it; nearest is %.4g away; inserted atoms at %s" %
+                     (np.round(x, 4).tolist(), d, np.round(got, 4).tolist()[:4]), witness=w)
+            break
+    if len(got) and (got.min() < -1e-9 or got.max() > L + 1e-9):
+        ctx.fail("an inserted atom lies outside the unit cell: %s" % np.round(got, 4).tolist()[:4], witness=w)
+    ctx.nontrivial(["integer_grid", case["s"]])
 
 
 def lever(pat_pos):
@@ -240,6 +320,8 @@ def same_multiset(cell, a, b, tol):
 
 
 def run_case(case, ctx):
+    if case.get("kind") == "integer_grid":
+        return integer_grid_case(case, ctx)
     rng = np.random.default_rng(case["s"])
     st = ctx.stats
     pat, rep, built, S = build_case(rng, case, ncopies=int(rng.integers(1, 4)) if case.get("fraction", 1.0) >= 1.0 else int(rng.integers(2, 6)))
@@ -379,6 +461,8 @@ def run_case(case, ctx):
 
 def requirements(stats, tier):
     need = []
+    if stats.get("replacements_in_structures_whose_coordinates_are_held_as_integers") < (8 if tier == "quick" else 400):
+        need.append("replacements in structures whose coordinates are held as integers: %d" % stats.get("replacements_in_structures_whose_coordinates_are_held_as_integers"))
     if stats.get("placements_judged") < (500 if tier == "quick" else 60000):
         need.append("too few placements judged: %d" % stats.get("placements_judged"))
     if stats.get("inserted_atoms_wrapped_by_lattice_vector") < (150 if tier == "quick" else 20000):
